@@ -521,6 +521,24 @@ async def s_close() -> List[str]:
             pass
         except Exception as e:
             pr.viol.append(f"a spawn request after close raised {type(e).__name__}")
+    # a group requested and cancelled in the same tick (its spawner never starts) right before the close
+    p2 = TaskPool(pool_size=2)
+    finished = []
+
+    async def elem(x):
+        await asyncio.sleep(TICK)
+        finished.append(x)
+
+    p2.map(elem, range(4), num_concurrent=1)
+    await asyncio.sleep(0)
+    g = p2.apply(elem, args=(99,))
+    p2.cancel_group(g)
+    try:
+        await asyncio.wait_for(p2.gather_and_close(), 2)
+    except BaseException as e:  # noqa
+        pr.viol.append(f"gather_and_close raised {type(e).__name__} although no task or callback raised (a group was cancelled in the same tick)")
+    if sorted(finished) != [0, 1, 2, 3]:
+        pr.viol.append(f"gather_and_close returned with map elements {sorted(finished)} of [0, 1, 2, 3] finished")
     return pr.viol
 
 
